@@ -70,6 +70,9 @@ def check(ck: Checker) -> None:
     for r in [n for n in gab.nodes.values() if n.kind == "stmt" and isinstance(n.ast, ast.Return)]:
         okb = okb and flows_from_calls(gab, r, r.ast.value, lc, depth=4) and flows_from_calls(gab, r, r.ast.value, dumps, depth=4)
     ck.require(okb, "C03.sorted", ab, ab.node, "as_bytes serialises as_list()", "as_bytes no longer serialises self.as_list(with_meta=with_meta)", construct="as_bytes")
+    from . import round11 as _r11
+
+    _r11.canonical_json_encoding(ck, "C03.sorted")
 
     # ---------------------------------------------------------------- nometa
     dg = prog.func("hashfile.tree", "Tree.digest")
